@@ -1,15 +1,137 @@
-(* C10 — property theorems only (work in progress: more are added as proofs close). *)
-From Coq Require Import NArith List String Bool.
-From AV Require Import lib.Str model.C10_manifest model.C10_ranges model.C10_fs model.C10_gomanifest proofs.C10_witness.
+(* C10 — all manifest codecs agree with the published manifest format: property theorems only.
+   Vocabulary (coq/model): [ref sizes pos len] = the published range semantics (non-empty pieces of [pos,pos+len) over
+   the concatenated blocks); fs_map / go_map / py_lar = the range mappers of the collection filesystem loader, of
+   sdk/go/manifest (firstBlock + scan) and of sdk/python/arvados/_ranges.py; [nonempty] drops zero-length segments. *)
+From Coq Require Import NArith List String Ascii Bool.
+From AV Require Import lib.Str model.C10_manifest model.C10_ranges model.C10_fs model.C10_gomanifest model.C10_python
+  lib.Md5 proofs.C10_witness proofs.C10_ranges_proofs proofs.C10_escape_proofs proofs.C10_bytes_proofs proofs.C10_pdh_proofs.
 Import ListNotations.
-Local Open Scope string_scope.
+Local Open Scope N_scope.
 
+(* ---- codec_agrees, range level: every block-size list (zero-length blocks anywhere), every range in the stream ---- *)
+
+(* collection filesystem loader: exactly the reference segments (so never an empty one), from any cursor position
+   left by the previous file token of the stream; the bound 2^63 is the loader's int64 *)
+Theorem C10_codec_agrees_fs : forall sizes cur offset len,
+  cur_ok sizes cur -> offset + len <= total sizes -> offset + len < 2 ^ 63 ->
+  exists cur', fs_map sizes cur offset len = FsSegs (ref sizes offset len) (fst cur') (snd cur') /\ cur_ok sizes cur'.
+Proof. exact fs_map_ref. Qed.
+Print Assumptions C10_codec_agrees_fs.
+
+Theorem C10_cursor_initial : forall sizes, cur_ok sizes (O, 0).
+Proof. exact cur_ok_start. Qed.
+Print Assumptions C10_cursor_initial.
+
+Theorem C10_reference_segments_nonempty : forall sizes pos len sg, In sg (ref sizes pos len) -> 0 < snd sg.
+Proof. intros sizes pos len sg. apply ref_from_nonempty. Qed.
+Print Assumptions C10_reference_segments_nonempty.
+
+(* Go manifest package (the bound 2^64 is its uint64) *)
+Theorem C10_codec_agrees_gomanifest : forall sizes pos len,
+  0 < len -> pos + len <= total sizes -> pos + len < 2 ^ 64 ->
+  exists l, go_map sizes pos len = GSegs l /\ nonempty l = ref sizes pos len.
+Proof. exact go_map_ref. Qed.
+Print Assumptions C10_codec_agrees_gomanifest.
+
+(* Python range mapper (unbounded integers) *)
+Theorem C10_codec_agrees_python : forall sizes pos len,
+  pos + len <= total sizes ->
+  exists l, py_lar sizes pos len = PySegs l /\ nonempty l = ref sizes pos len.
+Proof. exact py_lar_ref. Qed.
+Print Assumptions C10_codec_agrees_python.
+
+(* ---- binary_search_terminates / no_panic: for EVERY offsets array with >= 2 entries (i.e. >= 1 block) and EVERY
+        start, firstBlock neither runs out of fuel (fuel = length + 1) nor indexes out of range ---- *)
+Theorem C10_binary_search_terminates : forall offs start, (2 <= List.length offs)%nat ->
+  match go_first offs start with
+  | BsFound i => (S i < List.length offs)%nat
+  | BsNotFound => True
+  | BsPanic | BsFuel => False
+  end.
+Proof. exact go_first_safe. Qed.
+Print Assumptions C10_binary_search_terminates.
+
+Theorem C10_python_first_block_is_go_first_block : forall sizes start,
+  py_first (ranges_from 0 sizes) start = go_first (offsets sizes) start.
+Proof. exact py_first_eq. Qed.
+Print Assumptions C10_python_first_block_is_go_first_block.
+
+(* a file token accepted by parseManifestStream's range check never panics, provided pos+len does not wrap *)
+Theorem C10_no_panic_gomanifest_partial : forall sizes pos len,
+  0 < len -> go_range_ok sizes pos len = true -> pos + len < 2 ^ 64 -> go_map sizes pos len <> GPanic.
+Proof. exact go_map_no_panic. Qed.
+Print Assumptions C10_no_panic_gomanifest_partial.
+
+(* finding F14: with the wrap the check passes and Extract panics (a goroutine panic: the process dies) *)
 Theorem C10_no_panic_gomanifest_refuted :
   exists txt, wf_manifest txt = false /\ gm_extract txt "." "." = Panic.
 Proof. exists f14_text. exact f14_panics. Qed.
 Print Assumptions C10_no_panic_gomanifest_refuted.
 
+Theorem C10_no_panic_python : forall sizes pos len, sizes <> [] -> py_lar sizes pos len <> PyPanic.
+Proof. exact py_lar_no_exception. Qed.
+Print Assumptions C10_no_panic_python.
+
+(* finding F15: a malformed manifest (segment far beyond the stream) is loaded instead of rejected *)
 Theorem C10_malformed_rejected_fs_refuted :
   exists txt t, wf_manifest txt = false /\ fs_load txt = Some t.
 Proof. eexists; eexists. exact f15_accepted. Qed.
 Print Assumptions C10_malformed_rejected_fs_refuted.
+
+(* ---- escape / unescape, for all names (all byte strings) ---- *)
+Theorem C10_escape_roundtrip : forall s, unescape (escape s) = s.
+Proof. exact escape_roundtrip. Qed.
+Print Assumptions C10_escape_roundtrip.
+
+Theorem C10_escape_roundtrip_fs : forall s, fs_unescape (fs_escape s) = s.
+Proof. exact fs_escape_roundtrip. Qed.
+Print Assumptions C10_escape_roundtrip_fs.
+
+Theorem C10_escape_roundtrip_gomanifest : forall s, gm_unescape (gm_escape s) = s.
+Proof. exact gm_escape_roundtrip. Qed.
+Print Assumptions C10_escape_roundtrip_gomanifest.
+
+Theorem C10_escape_roundtrip_python : forall s, unescape (py_escape s) = s.
+Proof. exact py_escape_roundtrip. Qed.
+Print Assumptions C10_escape_roundtrip_python.
+
+(* names written by the manifest package are read back by the filesystem loader and vice versa; the two
+   unescapers are the same function although their regular expressions differ ([0-9]{3} vs [0-7]{3}) *)
+Theorem C10_escape_cross_codec : forall s, fs_unescape (gm_escape s) = s /\ gm_unescape (fs_escape s) = s.
+Proof. intros s. split; [apply gm_escape_fs_unescape|apply fs_escape_gm_unescape]. Qed.
+Print Assumptions C10_escape_cross_codec.
+
+Theorem C10_unescape_codecs_agree : forall s, gm_unescape s = unescape s /\ fs_unescape s = unescape s.
+Proof. intros s. split; [apply gm_unescape_eq|apply fs_unescape_eq]. Qed.
+Print Assumptions C10_unescape_codecs_agree.
+
+Theorem C10_python_escape_is_reference_escape : forall s, py_escape s = escape s.
+Proof. exact py_escape_eq. Qed.
+Print Assumptions C10_python_escape_is_reference_escape.
+
+(* ---- the reference segments mean what the published text says: the bytes of a file token are the substring
+        [position, position+size) of the concatenation of the stream's blocks, for every block store whose blocks
+        have the sizes their locators state ---- *)
+Theorem C10_reference_segments_are_the_published_bytes : forall (st : store) (s : stream) (f : ftok),
+  consistent_blocks st (s_blocks s) -> segs_bytes st (ftok_segs s f) = ftok_bytes st s f.
+Proof. exact ref_bytes. Qed.
+Print Assumptions C10_reference_segments_are_the_published_bytes.
+
+(* ---- the comparison used by the boolean specification (equal canonical forms) means equal bytes for EVERY store ---- *)
+Theorem C10_canonical_comparison_sound : forall a b, canon_eqb a b = true -> forall st, segs_bytes st a = segs_bytes st b.
+Proof. exact canon_eqb_bytes. Qed.
+Print Assumptions C10_canonical_comparison_sound.
+
+(* ---- pdh_spec: for every valid manifest, PortableDataHash = MD5 and length of the text with every locator reduced to
+        hash+size ---- *)
+Theorem C10_pdh_spec : forall txt, valid_manifest txt = true ->
+  pdh txt = (md5hex (strip_manifest txt) ++ "+" ++ dec (slen (strip_manifest txt)))%string.
+Proof. exact pdh_spec. Qed.
+Print Assumptions C10_pdh_spec.
+
+(* valid_manifest is satisfiable: the first example of the published format document *)
+Theorem C10_valid_manifest_example :
+  valid_manifest (". 930625b054ce894ac40596c3f5a0d947+33 0:0:a 0:0:b 0:33:output.txt" ++ s_nl ++
+                  "./c d41d8cd98f00b204e9800998ecf8427e+0 0:0:d" ++ s_nl)%string = true.
+Proof. vm_compute. reflexivity. Qed.
+Print Assumptions C10_valid_manifest_example.
